@@ -207,20 +207,42 @@ def run(rep, tier, root=None):
         tiling(rep, ix, fn)
     og = ix.func(MOD, "optimal_grouping")
     rep.functions_analysed.add(og.fq)
-    # the strengths returned are p[group].sum() over the converted groups
-    srcs = [norm_text(n) for n in ast.walk(og.node) if isinstance(n, ast.For)]
-    ok = any("_convert_splits_to_groups(gamma_best" in s and "p[groups].sum()" in s.replace(" ", "").replace("p[groups].sum()", "p[groups].sum()") for s in srcs)
-    body_ok = False
-    for n in ast.walk(og.node):
-        if isinstance(n, ast.For) and isinstance(n.iter, ast.Call) and norm_text(n.iter.func) == "_convert_splits_to_groups":
-            tgt = norm_text(n.target)
-            for st in n.body:
-                if isinstance(st, ast.Expr) and isinstance(st.value, ast.Call) and norm_text(st.value.func).endswith(".append"):
-                    arg = norm_text(st.value.args[0])
-                    if arg == "p[%s].sum()" % tgt:
-                        body_ok = True
-    rep.check(body_ok, "E2.group-sums", og.fq + ": strength of group == p[group].sum()",
-              "optimal_grouping does not return the plain sum of p over each group", og.where())
+    # the strengths returned are p[group].sum() over the converted groups of the best splits (normal form of the result)
+    opq = {MOD + ":" + n_ for n_ in ("_convert_splits_to_groups", "_G", "_optGroupingMinimization", "_random_grouping")}
+    Ig = Interp(ix, opaque=opq)
+    pp = Rat.sym("p", ("array",))
+    rets_g = [v for c_, v in Ig.returns(og, [Rat.sym("R", ("int",)), Rat.sym("L", ("int",)), Rat.sym("h", ("array",)), pp])
+              if isinstance(v, tuple) and len(v) == 2]
+    body_ok, why = False, "no returning path with (heights, strengths)"
+    conv = "call:" + MOD + ":_convert_splits_to_groups"
+    for v in rets_g:
+        st = v[1]
+        # strip the container: array(...) of a one-element symbolic list / a list comprehension
+        for _ in range(3):
+            a_ = st.single_atom() if isinstance(st, Rat) else None
+            if isinstance(a_, Fn) and a_.name == "array" and isinstance(a_.args[0], tuple) and len(a_.args[0]) == 1:
+                st = a_.args[0][0]
+            elif isinstance(a_, Fn) and a_.name == "listcomp":
+                st = a_.args[0]
+            elif isinstance(st, (list, tuple)) and len(st) == 1:
+                st = st[0]
+            else:
+                break
+        a_ = st.single_atom() if isinstance(st, Rat) else None
+        why = "strengths are %s" % nf(v[1], 160)
+        if isinstance(a_, Fn) and a_.name == "sum" and a_.args[1] is None and isinstance(a_.args[0], Rat):
+            gi = a_.args[0].single_atom()
+            if isinstance(gi, Fn) and gi.name == "getitem" and same_value(gi.args[0], pp) and isinstance(gi.args[1], Rat):
+                grp = gi.args[1].single_atom()
+                src = grp.args[0].single_atom() if isinstance(grp, Fn) and grp.name == "getitem" and isinstance(grp.args[0], Rat) else None
+                if isinstance(src, Fn) and src.name == conv:
+                    # the heights must come from the same converted groups
+                    hs = find_atoms(v[0], lambda t: isinstance(t, Fn) and t.name == conv)
+                    body_ok = all(same_value(Rat.atom(x), Rat.atom(src)) for x in hs)
+                    if not body_ok:
+                        why = "heights and strengths are computed from different groupings"
+    rep.check(body_ok, "E2.group-sums", og.fq + ": strength of group == p[group].sum() over the groups of the returned heights",
+              "optimal_grouping does not return the plain sum of p over each group: " + why, og.where())
     # ---- E3 no state survives a call (random restarts may use NumPy's global generator, which the property allows)
     purity_obligations(rep, ix, list(m.funcs.values()), "E3.no-hidden-state",
                        "a later compression optimises against values cached from an earlier profile")
